@@ -34,6 +34,12 @@ enum Op {
 #[derive(Clone, Debug)]
 enum ThreadCfg {
     Req,
+    /// requester that uses a clone of the (weak) notifier the creator was handed and kept
+    ReqKept,
+    /// `set_fast_reload(b)` from another thread
+    Fast(bool),
+    /// `set_callback(|| b)`: replaces the freshness callback
+    Cb(bool),
     Acq { cb: bool, fails: bool, script: Vec<Op> },
 }
 
@@ -54,6 +60,12 @@ fn parse_cfg(s: &str) -> Option<Cfg> {
     for t in it {
         if t == "R" {
             threads.push(ThreadCfg::Req);
+        } else if t == "K" {
+            threads.push(ThreadCfg::ReqKept);
+        } else if t == "F0" || t == "F1" {
+            threads.push(ThreadCfg::Fast(t == "F1"));
+        } else if t == "C0" || t == "C1" {
+            threads.push(ThreadCfg::Cb(t == "C1"));
         } else {
             let b = t.as_bytes();
             if b.len() < 5 || b[0] != b'A' || b[1] != b'c' || b[3] != b'x' {
@@ -144,6 +156,11 @@ thread_local! {
     static CTX: RefCell<Option<(Arc<Sched>, usize, bool, bool, Vec<Op>)>> = const { RefCell::new(None) };
 }
 
+thread_local! {
+    /// the next BeforeSet hook of this thread was already announced by the harness itself
+    static SKIP_S: std::cell::Cell<bool> = const { std::cell::Cell::new(false) };
+}
+
 fn point_code(p: Point) -> &'static str {
     // by name, so that the harness builds against trees with fewer or more hook points
     match format!("{:?}", p).as_str() {
@@ -164,6 +181,9 @@ fn install_yield() {
     set_yield(Some(Arc::new(|p: Point| {
         let ctx = CTX.with(|c| c.borrow().as_ref().map(|x| (x.0.clone(), x.1)));
         if let Some((sched, i)) = ctx {
+            if p == Point::BeforeSet && SKIP_S.with(|c| c.replace(false)) {
+                return;
+            }
             sched.arrive(i, point_code(p));
         }
     })));
@@ -188,11 +208,14 @@ fn run_schedule(cfg: &Cfg, sched_s: &str) -> String {
     let obs = Arc::new(Mutex::new(Obs { acq: vec![None; n], ..Default::default() }));
     let gen = Arc::new(AtomicUsize::new(0));
     let loads = Arc::new(AtomicUsize::new(0));
+    let on_calls = Arc::new(AtomicUsize::new(0));
+    let kept: Arc<Mutex<Option<minijinja_autoreload::Notifier>>> = Arc::new(Mutex::new(None));
 
     let reloader = {
-        let (gen, loads, obs) = (gen.clone(), loads.clone(), obs.clone());
+        let (gen, loads, obs, kept) = (gen.clone(), loads.clone(), obs.clone(), kept.clone());
         Arc::new(AutoReloader::new(move |notifier| {
             let g = gen.fetch_add(1, Ordering::SeqCst) + 1;
+            *kept.lock().unwrap() = Some(notifier.clone());
             let ctx = CTX.with(|c| c.borrow().clone());
             let (fails, script) = match &ctx {
                 Some((s, _, _, fails, script)) => {
@@ -233,20 +256,43 @@ fn run_schedule(cfg: &Cfg, sched_s: &str) -> String {
     }
     // freshness callback: answers what the polling acquire's configuration says
     notifier.set_callback(|| CTX.with(|c| c.borrow().as_ref().map(|x| x.2).unwrap_or(false)));
+    {
+        let on_calls = on_calls.clone();
+        notifier.set_on_should_reload_callback(move || {
+            on_calls.fetch_add(1, Ordering::SeqCst);
+        });
+    }
 
     let mut handles = vec![];
     for (i, t) in cfg.threads.iter().enumerate() {
         let (sched, obs, reloader, t) = (sched.clone(), obs.clone(), reloader.clone(), t.clone());
         let notifier = reloader.notifier();
         let gen = gen.clone();
+        let kept = kept.clone();
         handles.push(std::thread::spawn(move || {
             let (cb, fails, script) = match &t {
                 ThreadCfg::Acq { cb, fails, script } => (*cb, *fails, script.clone()),
-                ThreadCfg::Req => (false, false, vec![]),
+                _ => (false, false, vec![]),
             };
             CTX.with(|c| *c.borrow_mut() = Some((sched.clone(), i, cb, fails, script)));
             let r = guarded(|| match t {
                 ThreadCfg::Req => notifier.request_reload(),
+                ThreadCfg::ReqKept => {
+                    // announce BeforeSet ourselves, then pick the notifier the creator kept (if any)
+                    sched.arrive(i, "S");
+                    SKIP_S.with(|c| c.set(true));
+                    let n = kept.lock().unwrap().clone().unwrap_or_else(|| notifier.clone());
+                    n.request_reload();
+                    SKIP_S.with(|c| c.set(false));
+                }
+                ThreadCfg::Fast(b) => {
+                    sched.arrive(i, "f");
+                    notifier.set_fast_reload(b);
+                }
+                ThreadCfg::Cb(b) => {
+                    sched.arrive(i, "c");
+                    notifier.set_callback(move || b);
+                }
                 ThreadCfg::Acq { .. } => match reloader.acquire_env() {
                     Ok(env) => {
                         let see = |env: &Environment| {
@@ -337,7 +383,7 @@ fn run_schedule(cfg: &Cfg, sched_s: &str) -> String {
         let next = {
             let g = sched.m.lock().unwrap();
             let waiting = |i: &usize| g.at[*i].is_some() && g.at[*i] != Some("D");
-            (0..n).filter(waiting).find(|i| g.at[*i] != Some("L") && !(g.at[*i] == Some("S") && matches!(cfg.threads[*i], ThreadCfg::Req)))
+            (0..n).filter(waiting).find(|i| g.at[*i] != Some("L") && !(g.at[*i] == Some("S") && !matches!(cfg.threads[*i], ThreadCfg::Acq { .. })) && g.at[*i] != Some("f") && g.at[*i] != Some("c"))
                 .or_else(|| (0..n).filter(waiting).next())
         };
         let Some(t) = next else { break };
@@ -380,11 +426,12 @@ fn run_schedule(cfg: &Cfg, sched_s: &str) -> String {
         .map(|(i, _)| format!("{}:{}", i, o.acq[i].clone().unwrap_or_else(|| "none".into())))
         .collect();
     let mut line = format!(
-        "P={}|A={}|G={}|C={}",
+        "P={}|A={}|G={}|C={}|O={}",
         points.join(","),
         acq.join(","),
         o.builds.join(","),
-        gen.load(Ordering::SeqCst)
+        gen.load(Ordering::SeqCst),
+        on_calls.load(Ordering::SeqCst)
     );
     if !extra.is_empty() {
         line.push_str(&format!("|X={}", extra));
@@ -449,9 +496,10 @@ fn gen_cfgs(tier: &str) {
         for v in variants.iter().copied() {
             for nr in 0..=2usize {
                 let e = if (tier == "thorough" && v.len() < 7) || nr < 2 { 0 } else { 1 };
-                writeln!(out, "{} all", mk(f, e, &[v], nr)).unwrap();
-                writeln!(out, "{} all", mk(f, e, &[v, plain], nr)).unwrap();
-                writeln!(out, "{} all", mk(f, e, &[plain, v], nr)).unwrap();
+                let cap = if tier == "thorough" { 30000 } else { 800 };
+                writeln!(out, "{} upto {} {}", mk(f, e, &[v], nr), cap, rng.next() >> 16).unwrap();
+                writeln!(out, "{} upto {} {}", mk(f, e, &[v, plain], nr), cap, rng.next() >> 16).unwrap();
+                writeln!(out, "{} upto {} {}", mk(f, e, &[plain, v], nr), cap, rng.next() >> 16).unwrap();
             }
         }
     }
@@ -465,9 +513,36 @@ fn gen_cfgs(tier: &str) {
                     let mut t = vec![plain; 3];
                     t[pos] = v;
                     for nr in 0..=1usize {
-                        writeln!(out, "{} all", mk(f, 1, &t, nr)).unwrap();
+                        writeln!(out, "{} upto 300 {}", mk(f, 1, &t, nr), rng.next() >> 16).unwrap();
                     }
                 }
+            }
+        }
+    }
+    // (2c) the rest of the Notifier API as extra threads: set_fast_reload toggled between acquires
+    //      while a request is pending, set_callback replacing the freshness callback, requests
+    //      through the notifier clone the creator kept
+    for f in 0..2u8 {
+        let fx = if f == 0 { "F1" } else { "F0" };
+        for extra in [
+            vec!["R", fx], vec![fx], vec!["R", "F1", "F0"], vec!["R", "C1"], vec!["R", "C0"], vec!["C1"],
+            vec!["K"], vec!["R", "K"], vec!["K", fx], vec!["K", "C1"],
+        ] {
+            for acqs in [vec![plain, plain], vec![plain, "c1x0-"], vec!["c0x0r", plain], vec![plain, "c0x1-"], vec!["c0x0t", plain]] {
+                let mut c = mk(f, 0, &acqs, 0);
+                for x in &extra {
+                    c.push('.');
+                    c.push_str(x);
+                }
+                writeln!(out, "{} upto {} {}", c, if tier == "thorough" { 8000 } else { 200 }, rng.next() >> 16).unwrap();
+            }
+            for acqs in [vec![plain, plain, plain], vec![plain, "c1x1r", plain], vec![plain, "c1x1-", plain], vec![plain, "c0x1-", plain]] {
+                let mut c = mk(f, 1, &acqs, 0);
+                for x in &extra {
+                    c.push('.');
+                    c.push_str(x);
+                }
+                writeln!(out, "{} upto {} {}", c, if tier == "thorough" { 8000 } else { 200 }, rng.next() >> 16).unwrap();
             }
         }
     }
@@ -501,7 +576,7 @@ fn gen_cfgs(tier: &str) {
         for f in 0..2u8 {
             for t in &tuples {
                 for nr in 0..=3usize {
-                    writeln!(out, "{} all", mk(f, 1, t, nr)).unwrap();
+                    writeln!(out, "{} upto 6000 {}", mk(f, 1, t, nr), rng.next() >> 16).unwrap();
                 }
             }
         }
@@ -535,17 +610,85 @@ fn probe() {
     // thread 0 up to Holding, then thread 1 is (wrongly) scheduled: it must time out, and after
     // the wind-down both must have seen the same environment (no request was made)
     let r = run_schedule(&cfg, "000001");
-    let blocked = r.starts_with("bad:timeout@5:1|") && r.contains("|A=0:g1l1,1:g1l1|") && r.ends_with("|C=1");
+    let blocked = r.starts_with("bad:timeout@5:1|") && r.contains("|A=0:g1l1,1:g1l1|") && r.contains("|C=1|");
     println!("probe\tsecond-acquire-blocked-while-guard-held\t{}\t{}", if blocked { "ok" } else { "FAIL" }, r);
     // same while the creator is running
     let r = run_schedule(&cfg, "0001");
-    let blocked = r.starts_with("bad:timeout@3:1|") && r.contains("|A=0:g1l1,1:g1l1|") && r.ends_with("|C=1");
+    let blocked = r.starts_with("bad:timeout@3:1|") && r.contains("|A=0:g1l1,1:g1l1|") && r.contains("|C=1|");
     println!("probe\tsecond-acquire-blocked-while-creator-runs\t{}\t{}", if blocked { "ok" } else { "FAIL" }, r);
     // a requester is never blocked by a held guard
-    let r = run_schedule(&cfg3, "00000220111111");
-    let ok = r == "P=K,Z,B,C,H,T,D,D,K,Z,B,C,H,D|A=0:g1l1,1:g2l2|G=1@3,2@11|C=2";
+    let r = run_schedule(&cfg3, "000002201111111");
+    let ok = r == "P=K,Z,B,C,H,T,D,D,Q,K,Z,B,C,H,D|A=0:g1l1,1:g2l2|G=1@3,2@12|C=2|O=1";
     println!("probe\trequest-not-blocked-by-guard\t{}\t{}", if ok { "ok" } else { "FAIL" }, r);
     std::env::remove_var("C20_TIMEOUT_MS");
+    set_yield(None);
+
+    // dead notifiers: every entry point on a handle that outlived its reloader is a no-op
+    let r = guarded(|| {
+        let kept: Arc<Mutex<Option<minijinja_autoreload::Notifier>>> = Arc::new(Mutex::new(None));
+        let k2 = kept.clone();
+        let reloader = AutoReloader::new(move |n| {
+            *k2.lock().unwrap() = Some(n.clone());
+            Ok(Environment::new())
+        });
+        let outer = reloader.notifier();
+        let outer_clone = outer.clone();
+        drop(reloader.acquire_env().unwrap());
+        let inner = kept.lock().unwrap().clone().unwrap();
+        let alive = !outer.is_dead() && !inner.is_dead();
+        // the notifier kept by the creator is as good as the reloader's own
+        inner.request_reload();
+        let calls = Arc::new(AtomicUsize::new(0));
+        let c2 = calls.clone();
+        inner.set_on_should_reload_callback(move || {
+            c2.fetch_add(1, Ordering::SeqCst);
+        });
+        outer_clone.request_reload();
+        drop(reloader);
+        let dead = outer.is_dead() && inner.is_dead() && outer_clone.is_dead();
+        outer.request_reload();
+        inner.request_reload();
+        outer.set_fast_reload(true);
+        inner.set_callback(|| true);
+        outer_clone.set_on_should_reload_callback(|| ());
+        (alive, dead, calls.load(Ordering::SeqCst))
+    });
+    let ok = matches!(r, Ok((true, true, 1)));
+    println!("probe\tdead-notifier-is-noop\t{}\t{:?}", if ok { "ok" } else { "FAIL" }, r);
+
+    // a request through the notifier kept from the creator is served like any other
+    let r = guarded(|| {
+        let kept: Arc<Mutex<Option<minijinja_autoreload::Notifier>>> = Arc::new(Mutex::new(None));
+        let k2 = kept.clone();
+        let n = Arc::new(AtomicUsize::new(0));
+        let n2 = n.clone();
+        let reloader = AutoReloader::new(move |no| {
+            *k2.lock().unwrap() = Some(no.clone());
+            let mut env = Environment::new();
+            env.add_global("gen", n2.fetch_add(1, Ordering::SeqCst) + 1);
+            Ok(env)
+        });
+        let g = |r: &AutoReloader| r.acquire_env().unwrap().render_str("{{ gen }}", ()).unwrap();
+        let a = g(&reloader);
+        let b = g(&reloader);
+        kept.lock().unwrap().clone().unwrap().request_reload();
+        let c = g(&reloader);
+        format!("{}{}{}", a, b, c)
+    });
+    let ok = r.as_deref() == Ok("112");
+    println!("probe\tkept-notifier-request-served\t{}\t{:?}", if ok { "ok" } else { "FAIL" }, r);
+
+    // information (outside C20's statement): a PANICKING creator poisons the cached_env mutex
+    let reloader = Arc::new(AutoReloader::new(|_| -> Result<Environment<'static>, Error> { panic!("creator panicked") }));
+    let first = guarded(|| reloader.acquire_env().map(|_| ()).map_err(|e| format!("{:?}", e.kind())));
+    let second = guarded(|| reloader.acquire_env().map(|_| ()).map_err(|e| format!("{:?}", e.kind())));
+    let describe = |r: &Result<Result<(), String>, String>| match r {
+        Ok(Ok(())) => "ok".to_string(),
+        Ok(Err(k)) => format!("error:{}", k),
+        Err(m) => format!("panic:{}", m.split(':').next().unwrap_or("").replace('\t', " ")),
+    };
+    println!("info\tpanicking-creator\tfirst-acquire={}\tnext-acquire={}", describe(&first), describe(&second));
+    install_yield();
 }
 
 fn main() {
